@@ -475,5 +475,5 @@ func genG11(repo string, w *Out) error {
 		})
 	}
 	w.DefStrList("listener_stacking", stackOrder)
-	return nil
+	return genG11Shutdown(repo, w)
 }
